@@ -297,7 +297,10 @@ fn c07() -> (bool, String) {
         let before = store.snapshot();
         let mut a = Authenticator::new(Aaguid::new_empty(), store.clone(), yes());
         match block_on(a.get_assertion(ga_request("a.example", None, true, true))) {
-            Ok(_) => return (true, format!("update failing with {status:#x}: assertion returned although the store refused its counter")),
+            // "an assertion is never returned unless the store accepted its counter value": the value the store holds is the one it
+            // accepted; an assertion carrying any other value was returned without the store's consent
+            Ok(r) => { let held = store.items.lock().unwrap()[0].counter.unwrap_or(0);
+                       if r.auth_data.counter.unwrap_or(0) != held { return (true, format!("update failing with {status:#x}: assertion returned with counter {:?} although the store refused it (it holds {held})", r.auth_data.counter)); } }
             Err(e) => if u8::from(e) != status { return (true, format!("update failing with {status:#x}: another status reported")); } }
         if store.snapshot() != before { return (true, "update failing: store changed".into()); }
     }
